@@ -556,7 +556,8 @@ def sym_isinstance(obj, cls):
         return _builtin_isinstance(obj, cls)
     if type(obj).__name__ == 'P' and type(obj).__module__.endswith('apoly'):
         targets = cls if _builtin_isinstance(cls, tuple) else (cls,)
-        if float in targets or numbers.Number in targets:
+        intlike = obj.is_int_poly()
+        if (int in targets and intlike) or (float in targets and not intlike) or numbers.Number in targets:
             return True
         return _builtin_isinstance(obj, cls)
     return _builtin_isinstance(obj, cls)
